@@ -469,3 +469,18 @@ func verifC09IDLength() {
 	verifrt.Reach("overlong-id-refused", n > 16)
 	verifrt.Reach("short-id-refused", n < 16)
 }
+
+// Short names exhaustively (up to 3 arbitrary bytes, with or without "#ephemeral"); separate from
+// VerifC09_NameRule so that a branching hand-written validator cannot make it explode.
+func VerifC09_ShortNameRule() {
+	base := verifrt.Bytes("base", 3)
+	name := base
+	if verifrt.Choice("ephemeral-suffix", 2) == 1 {
+		name = append(append([]byte{}, base...), []byte("#ephemeral")...)
+	}
+	got := protocol.IsValidTopicName(string(name))
+	verifrt.Assert(got == verifValidNameRef(name), "short-name-rule")
+	verifrt.Assert(protocol.IsValidChannelName(string(name)) == got, "short-channel-rule-equals-topic-rule")
+	verifrt.Reach("bare-suffix-refused", len(base) == 0 && len(name) > 0 && !got)
+	verifrt.Reach("short-ephemeral-accepted", len(base) > 0 && len(name) > 10 && got)
+}
